@@ -54,6 +54,7 @@ Record table := mkTable {
   t_derive_pos : option nat;
   t_ignored  : list string }.
 
-Inductive perr := KeyError | TypeError | ValueError | AttributeError | OutOfModel | OtherError.
+Inductive perr := KeyError | TypeError | ValueError | AttributeError | OutOfModel | OtherError
+  | SerError.     (* utils.serializer.SerializationError *)
 
 Definition descr := list (string * val).
